@@ -15,7 +15,8 @@
              "n": inputs merged, "len": min input length,
              "g": [ { "e": [indexes into EpSeq[k], 0-based], "m": mode, "os": [outcomes],
                       "ms": max wall ms, "kib": max KiB allocated } ... ] }
-   Outcomes logged by the harness: "ok", "err", "panic", "timeout", "fatal".
+   Outcomes logged by the harness: "ok", "err", "panic", "timeout", "fatal", and "notrun"
+   (Inputs!NotRun: the call was not made, see there).
 
    Output: <<"REJECT", record, group, reason, entry point or "*">> per rejected group
    (group 0 = the record itself; "*" = every entry point of the group),
@@ -39,7 +40,7 @@ JudgeGroup(i, rec, j) ==
       os == SeqSet(g.os)
       eps == { EpSeq[rec.k][x + 1] : x \in SeqSet(g.e) }
       allowed(ep) == IF rec.sw > 0 THEN Outcomes ELSE Allowed(rec.k, rec.p, ep, rec.sc, rec.cut, rec.len)
-  IN /\ (os \subseteq Outcomes \/ Reject(i, j, "outcome", "*"))
+  IN /\ (os \subseteq (Outcomes \cup NotRun) \/ Reject(i, j, "outcome", "*"))
      /\ (g.ms <= TimeLimitMs \/ Reject(i, j, "time", "*"))
      /\ (g.kib <= AllocLimitKiB(rec.len) \/ Reject(i, j, "alloc", "*"))
      /\ \A ep \in eps :
